@@ -19,6 +19,8 @@ NA == Len(A)
 Seeds == <<"{\"", "{\"}", "{\"a\":1}", "{\"¬}", "{\"a\\n\":\"¬¬\"}", "{\"\n}", "¬", "¬¬", "\\\\n", "\\n", "{\"}\n", "a{\"}">>
 
 Others == <<":a", ":a-b", ":a1", ":+", ":", "a", "a-b", "a1", "+", "->", "*x*", "nil?", "-", "-a", "<=", "&", "0", "1", "-1",
+            \* symbols that differ from nil / true / false by letter case only
+            "True", "NIL", "False", "Nil", "tRUE", "(True NIL)", "{:k False}",
             "12345", "-30000", "nil", "true", "false", "()", "[]", "{}", "#{}", "(1 2)", "[1 [2 3]]", "(a (b) [c])",
             "{:a 1}", "{\"k\" {:b nil}}", "{:a [1 {:b 2}] \"s\" (3)}", "#{:a}", "#{\"a\" :a}", "[#{:k} {:k #{\"v\"}}]",
             "(quote a)", "(nil true false)", "[\"\" \"a\" :a a]",
